@@ -148,6 +148,15 @@ type serverStream struct {
 }
 
 func (s *serverStream) SetHeader(md metadata.MD) error {
+	s.headerM.Lock()
+	defer s.headerM.Unlock()
+
+	select {
+	case <-s.headerC:
+		// as in gRPC: once the headers have gone out nothing can be added to them
+		return errors.New("headers already sent")
+	default:
+	}
 	s.header = metadata.Join(s.header, md)
 	return nil
 }
